@@ -779,6 +779,12 @@ def run (ins outs : List String) : Verdict :=
   match ins with
   | "X" :: f => runX f outs
   | "J" :: f => runJ f outs
+  | ["Y", _codec, _kind, a, _b, _rounds] =>
+    -- "never alias": a delivered value is a copy; later calls cannot change it. The model of a
+    -- Consume stores a fresh list, so the first destination still holds A.
+    (match outs with
+     | ["KEPT", got] => { agree := got == a, specOk := got == a, tag := "alias:kept", model := "KEPT " ++ a }
+     | _ => { agree := false, specOk := false, tag := "alias:error", model := "KEPT " ++ a })
   | _ => .bad "C15 stream"
 
 end RtVerif.C15
